@@ -3,7 +3,7 @@
 // although nobody waits (worker spinning / asleep / arena with one slot / parallelism limit 1 / two arenas, one worker);
 // execute() with no free slot is served.  The main thread blocks on a harness event that only the task can signal, so a
 // lost wake-up is a deadlock of the closed system.
-// -p kind=wait_sleep|enqueue|enqueue1|enqueue_limit1|enqueue2|two_arenas|execute_full|enqueue_gc  -p asleep=0|1
+// -p kind=wait_sleep|enqueue|enqueue1|enqueue_limit1|enqueue2|two_arenas|execute_full|execute_handover|enqueue_gc  -p asleep=0|1
 #include <oneapi/tbb/task_group.h>
 #include <oneapi/tbb/task_arena.h>
 #include <oneapi/tbb/global_control.h>
@@ -38,6 +38,21 @@ static void scenario() {
         // reserved slot taken by main, the other slot by the worker or an external thread: the third entrant must be served via delegation / exit monitor
         auto ids = gated(2, [&](int) { (void)tbb::this_task_arena::max_concurrency(); }, [&](int i) { ar.execute([&, i] { c[i]++; vf_point(); }); });
         vf_window(1); vf_gate_open(); ar.execute([&] { c[2]++; vf_point(); vf_point(); }); join_all(ids); vf_window(0); for (int i = 0; i < 3; i++) if (c[i] != 1) vf_fail("execute functor %d ran %d times", i, c[i]); }
+    else if (streq(k, "execute_handover")) {   // a freed slot is announced to ONE sleeper; if that one no longer needs it, it must pass the announcement on
+        // task_arena(2,1): main holds the reserved slot, the worker the other one.  T1 and T2 sleep in execute() (delegated functors queued).  The worker runs T1's functor, then a task that
+        // waits for T2's functor, which sits behind it in the queue - so only T2 itself, entering the slot main frees, can run it.
+        tbb::global_control gc(tbb::global_control::max_allowed_parallelism, 2); tbb::task_arena ar(2, 1); ar.initialize();
+        static int go1, go2, left, f1_started, f2_done, k_timeout, k_done;
+        int t1 = spawn([&] { (void)tbb::this_task_arena::max_concurrency(); while (!go1) vf_block_on(&go1); ar.execute([&] { f1_started = 1; vf_wake(&f1_started); while (!left) vf_block_on(&left); }); });
+        int t2 = spawn([&] { (void)tbb::this_task_arena::max_concurrency(); while (!go2) vf_block_on(&go2); ar.execute([&] { f2_done = 1; }); });
+        ar.execute([&] { tbb::task_group warm; warm.run([] {}); warm.wait();
+            go1 = 1; vf_wake(&go1); while (!f1_started) vf_block_on(&f1_started); settle();                 // T1 asleep in the exit monitor, its functor running on the worker
+            ar.enqueue([&] { for (int i = 0; i < 400 && !f2_done; i++) vf_yield(); if (!f2_done) k_timeout = 1; k_done = 1; });   // queued before T2's functor
+            go2 = 1; vf_wake(&go2); settle();                                                               // T2 asleep too
+            vf_window(1); left = 1; vf_wake(&left); });                                                     // main leaves: one sleeper is told about the free slot
+        vf_join(t1); vf_join(t2); for (int i = 0; i < 3000 && !k_done; i++) vf_yield(); vf_window(0);
+        if (k_timeout) vf_fail("task_arena::execute: a thread kept sleeping next to a free arena slot (the slot hand-over was not passed on by a woken thread that no longer needed it)");
+        if (!f2_done) vf_fail("execute functor never ran"); }
     else vf_fail("unknown kind");
     vf_liveness(0);
     vf_outcome("ok main_sleeps=%d", vf_nblocks() > 0);
